@@ -11,11 +11,10 @@ Record xk_defects := {
   (* D12d (validation/value.rs, Variable case): a variable nested inside a list or input-object literal is
      compared with the position only by the innermost named type, not by IsVariableUsageAllowed *)
   xk_nested_variable_by_named_type : bool;
-  (* validation/value.rs: nothing inside an object literal written for a custom scalar is visited, so a
-     repeated field name in an object nested there is not reported (5.6.3) *)
-  xk_unique_not_inside_scalar_object : bool;
-  (* same cause: an undefined variable used inside an object literal written for a custom scalar is not
-     reported (5.8.3) *)
+  (* validation/value.rs: variables inside an object literal written for a custom scalar are not visited, and
+     UndefinedVariable is only reported from there: an undefined variable used in such a place is not reported
+     (5.8.3).  (The sibling defect, a repeated field name nested in such an object, was repaired in /repo by
+     commit eaa4ebe.) *)
   xk_defined_not_inside_scalar_object : bool;
   (* validation/value.rs, List case: the items of a list literal written for a custom scalar are checked
      against the scalar's own type reference, so `null` inside the list is rejected when that reference is
@@ -27,7 +26,7 @@ Record xk_defects := {
   xk_subscription_ignores_type_conditions : bool }.
 
 Definition xk_none : xk_defects :=
-  {| xk_nested_variable_by_named_type := false; xk_unique_not_inside_scalar_object := false;
+  {| xk_nested_variable_by_named_type := false;
      xk_defined_not_inside_scalar_object := false; xk_null_item_in_scalar_list := false;
      xk_subscription_ignores_type_conditions := false |}.
 
@@ -41,42 +40,13 @@ Definition xk_r_variable_usages_allowed (q : xk_defects) (s : schema) (d : docum
                                       | _, _ => true
                                       end) (xv_op_usages s (xv_frags d) o)) (xv_ops d).
 
-(* 5.8.3 with the third defect *)
+(* 5.8.3 with the second defect *)
 Definition xk_r_variables_defined (q : xk_defects) (s : schema) (d : document) : bool :=
   forallb (fun o => forallb (fun u => (xk_defined_not_inside_scalar_object q && xu_in_scalar_object u)
                                       || xv_is_some (xv_find_var (xu_name u) (xo_vars o)))
                             (xv_op_usages s (xv_frags d) o)) (xv_ops d).
 
-(* 5.6.3 with the second defect: the object literals that a typed traversal reaches without entering an
-   object literal written for a custom scalar *)
-Fixpoint xk_value_unique (s : schema) (v : value) (t : ty) {struct v} : bool :=
-  match v with
-  | VList l =>
-      match t with
-      | TList i | TNonNullList i => forallb (fun x => xk_value_unique s x i) l
-      | TNamed n | TNonNullNamed n =>
-          if xv_custom_scalar s n then forallb (fun x => xk_value_unique s x t) l else true
-      end
-  | VObject fs =>
-      xv_nodup (map fst fs)
-      && match xv_input_fields s (inner_named_type t) with
-         | Some defs =>
-             forallb (fun kv => match kv with
-                                | (k, x) => match xv_find_iv k defs with
-                                            | Some f => xk_value_unique s x (iv_ty f)
-                                            | None => true
-                                            end
-                                end) fs
-         | None => true
-         end
-  | _ => true
-  end.
-Definition xk_r_input_field_unique (q : xk_defects) (s : schema) (d : document) : bool :=
-  if xk_unique_not_inside_scalar_object q
-  then forallb (fun vt => xk_value_unique s (fst vt) (snd vt)) (xv_typed_values s d)
-  else xv_r_input_field_unique s d.
-
-(* 5.6.1 with the fourth defect: additionally reject a null item (at any list depth) of a list literal written
+(* 5.6.1 with the third defect: additionally reject a null item (at any list depth) of a list literal written
    where a non-null custom scalar is expected *)
 Fixpoint xk_list_has_null (v : value) : bool :=
   match v with
@@ -110,7 +80,7 @@ Definition xk_r_values_correct_type (q : xk_defects) (s : schema) (d : document)
   && negb (xk_null_item_in_scalar_list q
            && existsb (fun vt => xk_scalar_list_null s (fst vt) (snd vt)) (xv_typed_values s d)).
 
-(* 5.2.3.1 with the fifth defect *)
+(* 5.2.3.1 with the fourth defect *)
 Definition xk_r_subscription_single_root (q : xk_defects) (p : xv_params) (s : schema) (d : document) : bool :=
   forallb (xv_subscription_ok_gen (negb (xk_subscription_ignores_type_conditions q)) p s (xv_frags d)) (xv_ops d).
 
@@ -134,7 +104,7 @@ Definition xk_rule_vector (q : xk_defects) (p : xv_params) (s : schema) (d : doc
     xv_r_spread_possible p s d;
     xk_r_values_correct_type q s d;
     xv_r_input_field_names s d;
-    xk_r_input_field_unique q s d;
+    xv_r_input_field_unique s d;
     xv_r_input_required_fields s d;
     xv_r_variable_unique d;
     xv_r_variables_input_types s d;
@@ -150,12 +120,12 @@ Definition xk_rule_vector (q : xk_defects) (p : xv_params) (s : schema) (d : doc
 Definition xk_exec_valid (q : xk_defects) (p : xv_params) (s : schema) (d : document) : bool :=
   forallb (fun b => b) (xk_rule_vector q p s d).
 
-(* the switches by number, for the driver: 0..4 in the order of the record *)
+(* the switches by number, for the driver: 0..3 in the order of the record *)
 Definition xk_single (i : N) : xk_defects :=
-  {| xk_nested_variable_by_named_type := i =? 0; xk_unique_not_inside_scalar_object := i =? 1;
-     xk_defined_not_inside_scalar_object := i =? 2; xk_null_item_in_scalar_list := i =? 3;
-     xk_subscription_ignores_type_conditions := i =? 4 |}.
+  {| xk_nested_variable_by_named_type := i =? 0;
+     xk_defined_not_inside_scalar_object := i =? 1; xk_null_item_in_scalar_list := i =? 2;
+     xk_subscription_ignores_type_conditions := i =? 3 |}.
 Definition xk_of_mask (m : list bool) : xk_defects :=
-  {| xk_nested_variable_by_named_type := nth 0 m false; xk_unique_not_inside_scalar_object := nth 1 m false;
-     xk_defined_not_inside_scalar_object := nth 2 m false; xk_null_item_in_scalar_list := nth 3 m false;
-     xk_subscription_ignores_type_conditions := nth 4 m false |}.
+  {| xk_nested_variable_by_named_type := nth 0 m false;
+     xk_defined_not_inside_scalar_object := nth 1 m false; xk_null_item_in_scalar_list := nth 2 m false;
+     xk_subscription_ignores_type_conditions := nth 3 m false |}.
